@@ -80,9 +80,52 @@ class Gen30(c05lib.Gen05):
     return a
 
 
+CHOICES = ['Apple', 'apple', 'APPLE', 'Pear', 'pear', 'Éa', 'éa', 'ÉA', '10', '2', '02', 'x1', 'X1', 'blue', 'Blue',
+           'green']
+
+
+def choicesum_history(r):
+  """Summary tables grouped by ChoiceList / RefList columns (1 and 2 group-by columns); cells that receive several
+  multi-character choices at once (case variants, accents, numbers as strings), so that one action creates several
+  summary rows."""
+  cols = [{'id': 'C', 'type': 'ChoiceList', 'isFormula': False}, {'id': 'D', 'type': 'ChoiceList', 'isFormula': False},
+          {'id': 'L', 'type': 'RefList:T', 'isFormula': False}, {'id': 'A', 'type': 'Text', 'isFormula': False},
+          {'id': 'N', 'type': 'Int', 'isFormula': False}]
+  def cl():
+    k = r.randint(2, 5)
+    return ['L'] + r.sample(CHOICES, k)
+  def rl(n):
+    return ['L'] + r.sample(range(1, n + 1), min(n, r.randint(1, 3))) if n else None
+  hist = [[['AddTable', 'T', cols]]]
+  n = r.randint(1, 3)
+  hist.append([['BulkAddRecord', 'T', [None] * n, {'A': [r.choice(['a', 'b']) for _ in range(n)], 'N': list(range(n))}]])
+  groupings = [[2], [2, 3], [4], [2, 5], [3], [2, 4]]        # column refs: C=2 D=3 L=4 A=5 N=6
+  for gb in r.sample(groupings, r.randint(1, 3)):
+    hist.append([['CreateViewSection', 1, 0, 'record', gb, None]])
+  for _ in range(r.randint(3, 7)):
+    k = r.random()
+    row = r.randint(1, n)
+    if k < 0.45:
+      hist.append([['UpdateRecord', 'T', row, {r.choice(['C', 'D']): cl()}]])
+    elif k < 0.7:
+      m = r.randint(1, 2)
+      hist.append([['BulkAddRecord', 'T', [None] * m, {'C': [cl() for _ in range(m)], 'D': [cl() for _ in range(m)],
+                                                       'L': [rl(n) for _ in range(m)]}]])
+      n += m
+    elif k < 0.85:
+      hist.append([['UpdateRecord', 'T', row, {'L': rl(n), 'C': cl()}]])
+    elif k < 0.93:
+      hist.append([['CreateViewSection', 1, 0, 'record', r.choice(groupings), None]])
+    else:
+      hist.append([['RemoveRecord', 'T', row]])
+  return hist
+
+
 def make_history(seed, nb, kind):
   """Generates one history in THIS process (explicit bundles, successful or not)."""
   r = random.Random(seed)
+  if kind == 'choicesum':
+    return choicesum_history(r)
   gen = {'shared': histgen.HistGen, 'c05': c05lib.Gen05, 'sets': Gen30}[kind](r)
   e, _ = G.new_doc()
   hist = []
@@ -649,7 +692,7 @@ def corpus(ctx):
 def search(ctx):
   corpus(ctx)
   seeds = SEEDS_THOROUGH if ctx.tier == 'thorough' else SEEDS_QUICK
-  plan = [('shared', ctx.n(3, 40)), ('c05', ctx.n(4, 60)), ('sets', ctx.n(3, 30))]
+  plan = [('shared', ctx.n(3, 40)), ('c05', ctx.n(3, 60)), ('sets', ctx.n(3, 30)), ('choicesum', ctx.n(4, 40))]
   hists, kinds = [], []
   for kind, n in plan:
     for _ in range(n):
